@@ -134,8 +134,8 @@ def run(ctx):
         sl, org, _ = backward_direct(R, rvl)
         ok = any(1 <= l <= R.arg_count and R.locals[l] == "i32" for l in sl)
         ctx.ob("R4.2", "%s|rv-from-job-status" % R.key, ok, where=R.span, detail="rv is the status parameter, overridden only by error constants")
-        # ---- R4.8 (F-U): once the status has been set to a failure inside the success region, the target is out of reach
-        ctx.rule("R4.8", "no mutation of the target (rename over it, unlink of it) is reachable from a point where the job's status has been set to a failure: a step of the success path that fails (e.g. the copy of stdout into the temp file) must not fall through into `no output: remove the target`")
+        # ---- R4.10 (F-U): once the status has been set to a failure inside the success region, the target is out of reach
+        ctx.rule("R4.10", "no mutation of the target (rename over it, unlink of it) is reachable from a point where the job's status has been set to a failure: a step of the success path that fails (e.g. the copy of stdout into the temp file) must not fall through into `no output: remove the target`")
         rvar = common.int_root(R, rvl) if rvl is not None else None
         fails_at = []
         if rvar is not None:
@@ -146,10 +146,10 @@ def run(ctx):
                         if c_ is not None and c_ != 0:
                             fails_at.append(i)
         muts = sorted(set(ren) | set(unl_t))
-        ctx.floor("R4.8", "failure assignments to the status in record_new_state", len(set(fails_at)), 3)
+        ctx.floor("R4.10", "failure assignments to the status in record_new_state", len(set(fails_at)), 1)
         for a in sorted(set(fails_at)):
             pth = common.int_status_path(R, rvar, 0, a, muts) if muts else None
-            ctx.ob("R4.8", "%s|status:=%s|target-untouched-afterwards" % (R.key, "+".join(sorted({str(const_int(s_["rv"]["op"])) for s_ in R.blocks[a]["stmts"] if s_["s"] == "assign" and s_["place"]["l"] == rvar and s_["rv"]["k"] == "use" and const_int(s_["rv"]["op"]) is not None}))),
+            ctx.ob("R4.10", "%s|status:=%s|target-untouched-afterwards" % (R.key, "+".join(sorted({str(const_int(s_["rv"]["op"])) for s_ in R.blocks[a]["stmts"] if s_["s"] == "assign" and s_["place"]["l"] == rvar and s_["rv"]["k"] == "use" and const_int(s_["rv"]["op"]) is not None}))),
                    pth is None, where=ctx.where(R, a),
                    detail="after this failure is decided neither the rename nor the unlink of the target can execute" if pth is None else
                    "a failed build still replaces or deletes the previous target: status set to a failure at %s, target mutated at %s" % (R.line(a), R.line(pth[-1])), witness=pth)
